@@ -147,8 +147,12 @@ def check(ctx, report):
     # R2 structural
     decs = cls.decorators
     report.count('C17.R2', 4)
-    if 'functools.total_ordering' not in decs:
-        report.add('C17.R2', cls.construct + '@decorator[total_ordering]', 'functools.total_ordering missing')
+    explicit = [op for op in ('__le__', '__gt__', '__ge__') if cls.resolve(op) is not None and not cls.resolve(op).module.external]
+    if 'functools.total_ordering' not in decs and len(explicit) < 3:
+        # the remaining operators have to come from somewhere: the decorator, or explicit definitions (checked one by one by R3)
+        report.add('C17.R2', cls.construct + '@decorator[total_ordering]',
+                   'functools.total_ordering is missing and %s not defined: <=, > or >= of two versions raises TypeError' % ', '.join(
+                       op for op in ('__le__', '__gt__', '__ge__') if op not in explicit))
     kw = cls.attrs_kw
     if not (isinstance(kw.get('eq'), ast.Constant) and kw['eq'].value is False):
         report.add('C17.R2', cls.construct + '@decorator[eq]', 'attr.s(eq=False) missing: attrs would generate a field-wise __eq__')
